@@ -298,11 +298,16 @@ class AST2SCFGTransformer:
 
     def transform(self) -> None:
         """Transform Python function stored as self.code."""
-        # Assert that the code handed in was a function, we can only transform
+        # The code handed in must be a single function, we can only transform
         # functions.
-        assert isinstance(self.tree[0], ast.FunctionDef)
+        if len(self.tree) != 1 or not isinstance(
+            self.tree[0], ast.FunctionDef
+        ):
+            raise NotImplementedError(
+                "Only a single function definition can be transformed"
+            )
         # Run recursive code generation.
-        self.codegen(self.tree)
+        self.handle_function_def(self.tree[0])
         # Prune if requested.
         if self.prune:
             _ = self.blocks.prune_unreachable()
@@ -323,9 +328,7 @@ class AST2SCFGTransformer:
 
     def handle_ast_node(self, node: type[ast.AST] | ast.stmt) -> None:
         """Dispatch an AST node to handle."""
-        if isinstance(node, ast.FunctionDef):
-            self.handle_function_def(node)
-        elif isinstance(
+        if isinstance(
             node,
             (
                 ast.AugAssign,
